@@ -108,6 +108,9 @@ ELEMS = {
     "shared_in_tuple": ("n: int", [], "(lambda s: Array([s, s, Array(s)]))(String(minLength=n))"),
     "shared_in_composition": ("n: int", [], "(lambda s: AnyOf(s, Array(s), Not(s)))(Integer(minimum=n))"),
     "shared_in_properties": ("n: int, r: bool", [], "(lambda s: Element(properties={'a': Property(s, required=r), 'b': Property(s)}, additionalProperties=s, contains=s))(Integer(maximum=n))"),
+    "element_addl_items_shapes": ("f1: bool, f2: bool, ai: int", ["0 <= ai < 3"], "Element(**dict(([('items', Integer())] if f1 else []) + ([('items', [Integer(), String()])] if f2 else []) + [('additionalItems', (True, False, Integer(minimum=1))[ai])]))"),
+    "array_addl_items_single": ("ai: int, u: bool", ["0 <= ai < 4"], "Array(String(), additionalItems=(True, False, Integer(minimum=1), Nothing())[ai], uniqueItems=u)"),
+    "element_addl_props_shapes": ("f1: bool, f2: bool, ap: int", ["0 <= ap < 4"], "Element(**dict(([('properties', {'a': Property(Integer())})] if f1 else []) + ([('patternProperties', {'^a': String()})] if f2 else []) + [('additionalProperties', (True, False, Integer(minimum=1), Nothing())[ap])]))"),
     "nested": ("n: int, u: bool", [], "Array(AnyOf(Array(Integer(maximum=n), uniqueItems=u), Element(properties={'x': Property(Not(String(minLength=n)), required=u)})))"),
 }
 
@@ -117,9 +120,15 @@ def harnesses(ctx) -> List[H]:
     for name, (args, pre, expr) in ELEMS.items():
         hs.append(mk(f"c18_args_{name}", args, pre, f"return args_ok({expr})", timeout=120, group="args",
                      tier="quick", covers=expr))
-        hs.append(mk(f"c18_text_{name}", args, pre, f"return text_ok({expr})", timeout=45, group="text", expect="unknown",
-                     tier="quick" if name in ("element_literals", "element_props", "array_tuple", "anyof", "string", "shared_in_tuple", "shared_in_composition", "shared_in_properties") else "thorough",
-                     covers="eval(repr(e)) == e on realised text"))
+        hs.append(mk(f"c18_text_{name}", args, pre, f"return text_ok({expr})", timeout=30, group="text", expect="unknown",
+                     tier="quick", covers="eval(repr(e)) == e on realised text (refute-only for the integer / string holes)"))
+        # holes fixed, flags symbolic: the repr text is concrete, so every path is exhaustible
+        flag_args = ", ".join(a.strip() for a in args.split(",") if a.strip().endswith(": bool") or a.strip().startswith(("ai: int", "ap: int", "src: int")))
+        fixed = "n = 3; a = 1; b = 2; s = 'ab'; c = [1, True]; d = 0; m = 2"
+        if flag_args:
+            hs.append(mk(f"c18_textflags_{name}", flag_args, [p for p in pre if any(v in p for v in ("ai", "ap"))],
+                         f"{fixed}\nreturn text_ok({expr})", timeout=120, group="text-flags", tier="quick",
+                         covers="eval(repr(e)) == e for every combination of presence flags (holes fixed: n=3, a=1, b=2, s='ab', c=[1, True], d=0)"))
     # property wrappers
     hs.append(mk("c18_property_in_owner", "r: bool, src: int, n: int", ["0 <= src <= 2"],
                  "return prop_ok(Property(Integer(minimum=n), required=r, source=(None, 'a', 'other')[src]), 'a')", timeout=60, group="property", expect="unknown"))
